@@ -64,7 +64,7 @@ The misses and what was changed (every one is caught now; no check was loosened 
   not invalidated when an ancestor is re-parented: classify, edit the taxonomy, classify again): every database was built, classified once and discarded; kind `edit` now keeps the same ORM objects (transient, in a session, loaded from a file) through 2-6 rounds of curator edits (re-parenting through `.parent`, the `children` backref and `parent_id`, thresholds, report flags, inserted / deleted taxa, moved genomes, flush / commit / expire / rollback) and judges every classification against the tree as it is at that moment.  C06 (per-thread
   scratch accumulator not cleared after a read that fails part-way: the next genome absorbs the leftovers):
   every file the harness read was well-formed, at a fresh path, with nothing run before it; kind `history` now runs 1-5 earlier calls in the same thread (reads failing part-way in six ways, dirty caller accumulators, reused executors, the same path rewritten) before computing the genome through eight entry points.  C09 (report_closest clamped to the database size and written back to the caller's QueryParams: reuse
-  against a larger database gives a short list): ROUND5_C09.  C19 (SIGTERM handler calling sys.exit, so that a
+  against a larger database gives a short list): params objects were reused only against one database; kind `multidb` now reuses one QueryParams / keyword dict / inputs / signatures object across 2-4 databases smaller than, equal to and larger than N in every visiting order and compares the caller's objects with copies taken before each call.  C19 (SIGTERM handler calling sys.exit, so that a
   terminated writer closes the file cleanly): the harness only knew hard kills; extending it to exception deaths showed
   that the UNCHANGED code already had the defect for Ctrl-C and every other exception (section 6, repaired by a fix:
   commit); on the repaired tree the seeded change is harmless and the check rightly exits 0 on it.
